@@ -56,7 +56,10 @@ void battery_group(hwloc_topology_t t, int group, struct sb *b)
     {
       hwloc_obj_t largest[64]; int k = hwloc_get_largest_objs_inside_cpuset(t, root->cpuset, largest, 64);
       sb_printf(b, "largest=%d;", k);
-      hwloc_bitmap_t sets[5]; hwloc_obj_t r0 = root;
+      /* zeroed first: on an ill-formed topology (C06 loads documents with inconsistent sets) hwloc_distrib() may return
+       * without filling every slot; the battery must not read uninitialised pointers then (it did, and reported the
+       * harness' own fault as a crash - see DESIGN.md 6.6) */
+      hwloc_bitmap_t sets[5] = { NULL, NULL, NULL, NULL, NULL }; hwloc_obj_t r0 = root;
       if (hwloc_distrib(t, &r0, 1, sets, 5, INT_MAX, 0) == 0) for (int i = 0; i < 5; i++) { put_bitmap_queries(b, sets[i]); hwloc_bitmap_free(sets[i]); }
       for (int ty = HWLOC_OBJ_TYPE_MIN; ty < HWLOC_OBJ_TYPE_MAX; ty++) sb_printf(b, "td%d=%d,%d;", ty, hwloc_get_type_depth(t, (hwloc_obj_type_t)ty), hwloc_get_nbobjs_by_type(t, (hwloc_obj_type_t)ty));
     }
@@ -117,6 +120,76 @@ void battery_group(hwloc_topology_t t, int group, struct sb *b)
     rc = hwloc_topology_export_xmlbuffer(t, &xml, &len, HWLOC_TOPOLOGY_EXPORT_XML_FLAG_V2);
     sb_printf(b, "xmlv2 rc=%d len=%d hash=%" PRIx64 "\n", rc, len, rc == 0 ? mc_hash(xml, (size_t)len) : 0);
     if (rc == 0) hwloc_free_xmlbuffer(t, xml);
+    break; }
+  case BAT_LOOKUPS: {
+    /* the consulting calls the other groups do not reach: lookups by index / type / name / bus id, cache and
+     * locality helpers, per-level iterators with sets, the remaining bitmap printers, infos, support, memattr and
+     * distances accessors */
+    hwloc_obj_t *objs; unsigned n = canon_walk(t, &objs);
+    char buf[512];
+    hwloc_const_bitmap_t rc = root->cpuset, rn = root->nodeset;
+    if (rc) { hwloc_bitmap_snprintf(buf, sizeof(buf), rc); sb_printf(b, "%s;", buf); hwloc_bitmap_taskset_snprintf(buf, sizeof(buf), rc); sb_printf(b, "%s;", buf); }
+    if (rc && rn) {
+      hwloc_bitmap_t tmp = hwloc_bitmap_alloc();
+      hwloc_cpuset_from_nodeset(t, tmp, rn); put_bitmap_queries(b, tmp);
+      hwloc_bitmap_copy(tmp, rc); hwloc_bitmap_singlify_per_core(t, tmp, 0); put_bitmap_queries(b, tmp);
+      hwloc_bitmap_free(tmp);
+    }
+    sb_printf(b, "thissystem=%d flags=%lx mpd=%d;", hwloc_topology_is_thissystem(t), hwloc_topology_get_flags(t), hwloc_get_memory_parents_depth(t));
+    { const struct hwloc_topology_support *sp = hwloc_topology_get_support(t); sb_printf(b, "sup=%d%d%d;", sp->discovery->pu, sp->cpubind->set_thisproc_cpubind, sp->membind->set_thisproc_membind); }
+    for (unsigned i = 0; i < n; i++) {
+      hwloc_obj_t o = objs[i];
+      sb_printf(b, "%" PRIu64 ":", o->gp_index);
+      for (unsigned k = 0; k < o->infos.count && k < 4; k++) { const char *v = hwloc_obj_get_info_by_name(o, o->infos.array[k].name); sb_printf(b, "i=%s,", v ? v : "(null)"); }
+      sb_printf(b, "sub=%d,", hwloc_obj_is_in_subtree(t, o, root));
+      for (int ty = HWLOC_OBJ_TYPE_MIN; ty < HWLOC_OBJ_TYPE_MAX; ty += 3) { hwloc_obj_t a = hwloc_get_ancestor_obj_by_type(t, (hwloc_obj_type_t)ty, o); if (a) sb_printf(b, "a%d=%" PRIu64 ",", ty, a->gp_index); }
+      if (o->depth > 0) { hwloc_obj_t a = hwloc_get_ancestor_obj_by_depth(t, 0, o); sb_printf(b, "a0=%" PRIu64 ",", a ? a->gp_index : 0); }
+      if (o->cpuset && !hwloc_bitmap_iszero(o->cpuset)) {
+        hwloc_obj_t c = hwloc_get_cache_covering_cpuset(t, o->cpuset); sb_printf(b, "cc=%" PRIu64 ",", c ? c->gp_index : 0);
+        if (hwloc_obj_type_is_normal(o->type)) { c = hwloc_get_shared_cache_covering_obj(t, o); sb_printf(b, "sc=%" PRIu64 ",", c ? c->gp_index : 0); }
+        sb_printf(b, "in=%u,", hwloc_get_nbobjs_inside_cpuset_by_type(t, o->cpuset, HWLOC_OBJ_PU));
+        hwloc_obj_t f = hwloc_get_first_largest_obj_inside_cpuset(t, o->cpuset); sb_printf(b, "fl=%" PRIu64 ",", f ? f->gp_index : 0);
+        hwloc_obj_t it = NULL; unsigned cnt = 0; while ((it = hwloc_get_next_obj_covering_cpuset_by_type(t, o->cpuset, HWLOC_OBJ_CORE, it)) != NULL && cnt < 1000) cnt++; sb_printf(b, "cov=%u,", cnt);
+        it = NULL; cnt = 0; while ((it = hwloc_get_next_obj_inside_cpuset_by_type(t, o->cpuset, HWLOC_OBJ_PU, it)) != NULL && cnt < 100000) cnt++; sb_printf(b, "ins=%u,", cnt);
+        hwloc_obj_t ch = hwloc_get_child_covering_cpuset(t, o->cpuset, root); sb_printf(b, "chc=%" PRIu64 ",", ch ? ch->gp_index : 0);
+      }
+      if (o->cpuset && o->nodeset) {
+        static const hwloc_obj_type_t TY[] = { HWLOC_OBJ_PACKAGE, HWLOC_OBJ_NUMANODE, HWLOC_OBJ_GROUP, HWLOC_OBJ_L3CACHE, HWLOC_OBJ_MACHINE };
+        for (unsigned k = 0; k < sizeof(TY) / sizeof(TY[0]); k++) { hwloc_obj_t s = hwloc_get_obj_with_same_locality(t, o, TY[k], NULL, NULL, 0); if (s) sb_printf(b, "sl%u=%" PRIu64 ",", k, s->gp_index); }
+      }
+      if (o->type == HWLOC_OBJ_PU) { hwloc_obj_t q = hwloc_get_pu_obj_by_os_index(t, o->os_index); sb_printf(b, "pu=%" PRIu64 ",", q ? q->gp_index : 0); }
+      if (o->type == HWLOC_OBJ_NUMANODE) { hwloc_obj_t q = hwloc_get_numanode_obj_by_os_index(t, o->os_index); sb_printf(b, "nn=%" PRIu64 ",", q ? q->gp_index : 0); }
+      if (o->type == HWLOC_OBJ_PCI_DEVICE) {
+        hwloc_obj_t q = hwloc_get_pcidev_by_busid(t, o->attr->pcidev.domain, o->attr->pcidev.bus, o->attr->pcidev.dev, o->attr->pcidev.func); sb_printf(b, "pci=%" PRIu64 ",", q ? q->gp_index : 0);
+        snprintf(buf, sizeof(buf), "%04x:%02x:%02x.%01x", o->attr->pcidev.domain, o->attr->pcidev.bus, o->attr->pcidev.dev, o->attr->pcidev.func);
+        q = hwloc_get_pcidev_by_busidstring(t, buf); sb_printf(b, "pcis=%" PRIu64 ",", q ? q->gp_index : 0);
+      }
+      if (o->type == HWLOC_OBJ_BRIDGE) sb_printf(b, "br=%d,", hwloc_bridge_covers_pcibus(o, 0, 1));
+      sb_putc(b, '\n');
+    }
+    { hwloc_obj_t it = NULL; unsigned c1 = 0, c2 = 0, c3 = 0;
+      while ((it = hwloc_get_next_pcidev(t, it)) != NULL && c1 < 100000) c1++;
+      while ((it = hwloc_get_next_osdev(t, it)) != NULL && c2 < 100000) c2++;
+      while ((it = hwloc_get_next_bridge(t, it)) != NULL && c3 < 100000) c3++;
+      sb_printf(b, "io=%u/%u/%u;", c1, c2, c3); }
+    { struct hwloc_infos_s *ti = hwloc_topology_get_infos(t); for (unsigned k = 0; ti && k < ti->count; k++) if (strcmp(ti->array[k].name, "ProcessName") && strcmp(ti->array[k].name, "hwlocVersion")) sb_printf(b, "ti=%s=%s;", ti->array[k].name, ti->array[k].value); }
+    /* memory attribute accessors */
+    for (hwloc_memattr_id_t id = 0; id < 10; id++) {
+      const char *name = NULL; unsigned long fl = 0; hwloc_memattr_id_t back = 99;
+      if (hwloc_memattr_get_name(t, id, &name) == 0 && name) { hwloc_memattr_get_flags(t, id, &fl); hwloc_memattr_get_by_name(t, name, &back); sb_printf(b, "ma%u=%s/%lx/%u;", id, name, fl, back); }
+    }
+    /* distances accessors */
+    { unsigned nr = 8; struct hwloc_distances_s *d[8];
+      if (hwloc_distances_get(t, &nr, d, 0, 0) == 0) for (unsigned i = 0; i < nr && i < 8; i++) {
+        const char *nm = hwloc_distances_get_name(t, d[i]);
+        sb_printf(b, "d%u=%s/%u:", i, nm ? nm : "(null)", d[i]->nbobjs);
+        for (unsigned x = 0; x < d[i]->nbobjs && x < 4; x++) if (d[i]->objs[x]) {
+          sb_printf(b, "%d,", hwloc_distances_obj_index(d[i], d[i]->objs[x]));
+          hwloc_uint64_t v1 = 0, v2 = 0; if (d[i]->objs[0] && hwloc_distances_obj_pair_values(d[i], d[i]->objs[0], d[i]->objs[x], &v1, &v2) == 0) sb_printf(b, "%" PRIu64 "/%" PRIu64 ",", v1, v2);
+        }
+        hwloc_distances_release(t, d[i]);
+      } }
+    free(objs);
     break; }
   case BAT_SYNTHETIC: {
     char buf[2048];
